@@ -91,7 +91,7 @@ ASSUMPTIONS = [
     "seen, not triaged); nested keys below class-typed options (init_args) are not generated",
     "the text '--' is not used as a value (argparse removes it) and bare NoneType is not used as a type hint",
 ]
-FINDING_CLASSES = {1: "none-unchecked", 3: "literal-eq-channels", 4: "jsonnet-numbers", 8: "nargs-count-unchecked", 9: "typed-choices-raw-argv"}   # 2 (clash-key-unadapted) and 7 (nested-item-no-string-fallback) repaired
+FINDING_CLASSES = {1: "none-unchecked", 3: "literal-eq-channels", 4: "jsonnet-numbers", 8: "nargs-count-unchecked"}  # 9 (typed-choices-raw-argv) repaired: /repo 1307907   # 2 (clash-key-unadapted) and 7 (nested-item-no-string-fallback) repaired
 # When fixes/C05-clash-key-unadapted.patch is applied in /repo:  JUDGE = "judge_fixed"  and drop class 2 above.
 JUDGE = "judge_fixed"   # /repo 0aaec05 (clash-key-unadapted repaired)
 
